@@ -229,7 +229,8 @@ func (rw *Rewriter) VisitEnd(node sql.Node) (sql.Node, error) {
 
 func isNow(e sql.Expr) bool {
 	if i, ok := e.(*sql.Ident); ok {
-		return strings.EqualFold(i.Name, "now")
+		// Only a double-quoted identifier can stand for the string 'now'.
+		return i.Quoted && strings.EqualFold(i.Name, "now")
 	} else if s, ok := e.(*sql.StringLit); ok {
 		return strings.EqualFold(s.Value, "now")
 	}
